@@ -30,6 +30,11 @@ impl Workload {
     /// without a WAL record, so it is not a durable fact and would make the
     /// cycle stamps of later receipts incomparable across a crash).
     pub fn generate(rng: &mut Rng, n_intents: usize) -> Self {
+        Self::generate_with(rng, n_intents, false)
+    }
+
+    /// `allow_declined`: also generate intents the installed matcher declines.
+    pub fn generate_with(rng: &mut Rng, n_intents: usize, allow_declined: bool) -> Self {
         let n_worldlines = rng.range(1, 2) as u8;
         let mut intents: Vec<IntentSpec> = Vec::new();
         let mut ops: Vec<Op> = Vec::new();
@@ -65,6 +70,7 @@ impl Workload {
                     amount: intents.len() as u32 * 7 + rng.below(5) as u32,
                     parents,
                     fake_parent,
+                    decline: allow_declined && rng.chance(1, 4),
                 };
                 intents.push(spec);
                 let idx = intents.len() - 1;
@@ -123,7 +129,7 @@ impl Workload {
             "n_worldlines": self.n_worldlines,
             "intents": self.intents.iter().map(|i| json!({
                 "worldline": i.worldline, "slot": i.slot, "amount": i.amount,
-                "parents": i.parents, "fake_parent": i.fake_parent,
+                "parents": i.parents, "fake_parent": i.fake_parent, "decline": i.decline,
             })).collect::<Vec<_>>(),
             "ops": self.ops.iter().map(|o| match o {
                 Op::Submit { intent } => json!({"op": "submit", "intent": intent}),
@@ -148,6 +154,7 @@ impl Workload {
                     .filter_map(|p| p.as_u64().map(|p| p as usize))
                     .collect(),
                 fake_parent: i.get("fake_parent").and_then(Value::as_u64).map(|t| t as u8),
+                decline: i.get("decline").and_then(Value::as_bool).unwrap_or(false),
             });
         }
         let mut ops = Vec::new();
